@@ -16,6 +16,7 @@ registered names are cached.  `Dom` is the structural domain: component chains s
 import DefconModel.Lemmas.ReprRun
 import DefconModel.Lemmas.ReprKey
 import DefconModel.Lemmas.ReprGeom
+import DefconModel.Lemmas.ReprDom
 import DefconModel.Gen.ReprTables
 
 namespace DefconModel.Props.C03
@@ -134,5 +135,125 @@ theorem factory_runs_once (P : Params V) (T : Tables) (w : World V) (o : Obj) (n
     rw [s.regs]
     exact h5 inner hi
   · rw [hk]; exact hv1
+
+/-! ### `Contour.move` patches instead of evicting -/
+
+/-- **move_patch_correct** (geometry).  The control-point box of a point list translated by `d` is
+the box translated by `d`, and stays `None` for an empty contour — which is exactly what
+`Contour.move` writes into the two cached bounds entries instead of recomputing them. -/
+theorem move_patch_correct (d : Pt) (pts : List Pt) :
+    boundsOf (translate d pts) = patchBounds d (boundsOf pts) := bounds_translate d pts
+
+/-- … hence the hypothesis `PatchOK` of `cache_coherent` holds for the bounds factories over integer
+point lists, whatever point list a content version stands for. -/
+theorem move_patch_ok (shape : Nat → List Pt) : PatchOK (geomParams shape) := by
+  intro nm _ ver ox oy dx dy
+  simp only [geomParams]
+  rw [← translate_translate (ox, oy) (dx, dy), bounds_translate]
+
+example : boundsOf (translate (3, -2) [(0, 0), (10, 4), (-1, 7)]) = some (2, -2, 13, 5) := by decide
+example : boundsOf (translate (3, -2) []) = none := rfl
+
+/-! ### nested components -/
+
+/-- **nested_base_eviction.**  Glyph `h` posts an outline change (`ns` contains ContoursChanged or
+ComponentsChanged) and everything the model delivers for it is in `ds`.  Then every component whose
+base glyph reads `h` through ANY number of component hops has lost its built-in representations
+(bounds, controlPointBounds), and the glyph that holds it has lost its built-in ones (area).
+(Induction on the nesting depth inside `cascade_complete`; acyclicity is `Dom.bounded`.) -/
+theorem nested_base_eviction (T : Tables) (hcov : Coverage T = true) (w1 : World V) (h : String)
+    (ns : List String) (ds : List (Obj × String)) (hdom : Dom w1) (hh : AL.contains w1.glyphs h = true)
+    (hrel : relays ns = true) (hD : ∀ y, y ∈ glyphDeliv w1.fuel T w1.glyphs h ns → y ∈ ds)
+    {x' : String} {gx : GlyphS} {k : CompS} {c : String} {m : Nat}
+    (hgx : AL.get? w1.glyphs x' = some gx) (hk : k ∈ gx.comps) (hbase : k.base = some c)
+    (hrd : ReadsN w1.glyphs m c h) :
+    (∀ nm sk, isBuiltin T "Component" nm = true → (cacheOf (applyDeliv T w1 ds) (.comp k.id)).get? nm sk = none) ∧
+    (∀ nm sk, isBuiltin T "Glyph" nm = true → (cacheOf (applyDeliv T w1 ds) (.glyph x')).get? nm sk = none) := by
+  constructor
+  · intro nm sk hbi
+    cases hv : (cacheOf (applyDeliv T w1 ds) (.comp k.id)).get? nm sk with
+    | none => rfl
+    | some v =>
+      exfalso
+      obtain ⟨d, y, hd, hy, hhit⟩ := cascade_hits_comp T hcov w1.glyphs w1.fuel h ns hdom.bounded hdom.watch hh hrel
+        hgx hk hbase hrd hbi
+      exact not_survivor hv (mem_facsOf_builtin hd) (hD _ hy) hhit
+  · intro nm sk hbi
+    cases hv : (cacheOf (applyDeliv T w1 ds) (.glyph x')).get? nm sk with
+    | none => rfl
+    | some v =>
+      exfalso
+      have hbg := cov_glyphOutline hcov (m := "_componentBaseGlyphDataChanged") (by simp [glyphOutlineMethods])
+      have hcb := cov_compCallback hcov (cb := "baseGlyphDataChangedNotificationCallback") (by simp [compCallbacks])
+      unfold isBuiltin at hbi
+      rw [List.any_eq_true] at hbi
+      obtain ⟨p, hp, hpn⟩ := hbi
+      simp only [decide_eq_true_eq] at hpn
+      unfold hitsAll at hbg
+      have h1 := hbg.1
+      rw [Bool.and_eq_true] at h1
+      have := List.all_eq_true.mp h1.1 p hp
+      rw [List.any_eq_true] at this
+      obtain ⟨y, hy, hhit⟩ := this
+      have hdel := cascade_glyph T w1.glyphs w1.fuel h ns hbg.2 hcb.2 hdom.bounded
+        (watch_of_dom hdom.watch hh) hrel hrd hgx hk hbase hy
+      exact not_survivor hv (by rw [← hpn]; exact mem_facsOf_builtin hp) (hD _ hdel) hhit
+
+/-! ### a concrete nested font (non-vacuity of the hypotheses) -/
+
+section Example
+
+/-- A → B → C by components, a contour in C; requests fill the caches -/
+def exOps : List Op :=
+  [.newGlyph "C", .newGlyph "B", .newGlyph "A", .mkContour 1, .insContour "C" 1 0,
+   .mkComp 2 (some "C"), .insComp "B" 2 0, .mkComp 3 (some "B"), .insComp "A" 3 0,
+   .get (.comp 3) "defcon.component.bounds" [], .get (.glyph "A") "defcon.glyph.area" [],
+   .get (.contour 1) "defcon.contour.bounds" []]
+
+def exParams : Params Nat := { f := fun _ _ toks _ => toks.length, patch := fun _ v _ _ => v }
+
+def exWorld : World Nat := run exParams Gen.ReprTables.tables {} exOps
+
+def exRank (x : String) : Nat := if x = "A" then 2 else if x = "B" then 1 else 0
+
+/-- the example world is inside the structural domain … -/
+example : Dom exWorld := by
+  apply dom_of_checks exWorld exRank (by decide) (by decide)
+  · intro x g k c hg hk hb
+    have hm := AL.mem_of_get? hg
+    have : exWorld.glyphs = [("C", ⟨1, [⟨1, 4, 0, 0, 0⟩], []⟩), ("B", ⟨2, [], [⟨2, some "C", 5, 0, .base⟩]⟩),
+        ("A", ⟨3, [], [⟨3, some "B", 6, 0, .base⟩]⟩)] := by decide
+    rw [this] at hm
+    simp only [List.mem_cons, Prod.mk.injEq, List.mem_nil_iff, or_false] at hm
+    rcases hm with ⟨rfl, rfl⟩ | ⟨rfl, rfl⟩ | ⟨rfl, rfl⟩
+    · cases hk
+    · simp only [List.mem_cons, List.mem_nil_iff, or_false] at hk
+      subst hk; cases hb; decide
+    · simp only [List.mem_cons, List.mem_nil_iff, or_false] at hk
+      subst hk; cases hb; decide
+  · intro x; unfold exRank; have : exWorld.fuel = 64 := by decide
+    rw [this]
+    by_cases e1 : x = "A"
+    · simp [e1]
+    · by_cases e2 : x = "B" <;> simp [e1, e2]
+
+/-- … its caches are filled … -/
+example : (digest exWorld).length = 3 := by decide
+
+/-- … the chain A → B → C is a two-hop read … -/
+example : ReadsN exWorld.glyphs 1 "B" "C" :=
+  ReadsN.step ⟨2, [], [⟨2, some "C", 5, 0, .base⟩]⟩ ⟨2, some "C", 5, 0, .base⟩ (by decide) (by simp) rfl (ReadsN.refl "C")
+
+/-- … and reversing the contour in C empties the caches of the component in A, of A, and of the contour -/
+example : digest (step exParams Gen.ReprTables.tables exWorld (.cmut 1 "reverse")).1 = [] := by decide
+
+/-- while `move` keeps (patches) the contour's bounds entry and evicts the rest -/
+example : (digest (step exParams Gen.ReprTables.tables exWorld (.cmove 1 5 5)).1).map
+    (fun p => (p.1, p.2.map Prod.fst)) = [(Obj.contour 1, ["defcon.contour.bounds"])] := by decide
+
+/-- `PatchOK` is satisfiable -/
+example : PatchOK exParams := by intro nm _ ver ox oy dx dy; rfl
+
+end Example
 
 end DefconModel.Props.C03
